@@ -208,9 +208,22 @@ def legacy_iam(run: Run, env):
                 break
         ok = found is not None and all(J.has_data(found, f"def {x}(") for x in ("set_iam_policy", "get_iam_policy", "test_iam_permissions"))
         run.table(f"mixins.legacy:{tname.rsplit('/', 1)[1]}:three-iam-methods-under-exactly-the-option", ok, group="mixins.legacy:add-iam-methods")
+        # callability: a legacy method either wraps its stub inline or looks it up in _wrapped_methods - the table built by
+        # _prep_wrapped_messages holds entries for the service's own methods and the YAML mixins only
+        if found is not None and tname.endswith(("client.py.j2", "async_client.py.j2")):
+            text = "".join(d.data for d in found.find_all(nodes.TemplateData))
+            lookups = text.count("_wrapped_methods[")
+            inline = text.count("wrap_method(")
+            which = "async" if tname.endswith("async_client.py.j2") else "sync"
+            tables = J.template_source(env, J.SERVICE_DIR + "transports/base.py.j2") + J.template_source(env, J.SERVICE_DIR + "_shared_macros.j2")
+            has_entries = "self.set_iam_policy:" in tables
+            run.results.append(Result(f"mixins.legacy:{which}:every-legacy-method-has-a-wrapped-callable", "discharged" if (lookups == 0 and inline >= 3) or has_entries else "open",
+                                      "jinja-ast", 0, "structural", detail=f"inline wrap_method calls={inline}, _wrapped_methods lookups={lookups}, table entries for the legacy stubs={has_entries}",
+                                      group=f"mixins.legacy:{which}-callable"))
 
 
 def run(run: Run):
+    run.witness_check = witness_still_fails
     stage1(run)
     get_methods_table(run)
     env = J.make_env()
@@ -224,15 +237,23 @@ def run(run: Run):
     run.not_decided.append("REST mixin transports (_rest_mixins*.j2) are covered by the native stand-in only")
 
 
+def witness_still_fails(k):
+    from vf.genlab import run_isolated
+    f = run_isolated("props.C17_native", "scenarios")
+    return any(x.get("known") == k["witness"] for x in f["failures"])
+
+
 def falsify(run, group, info):
     from vf.genlab import run_isolated
     f = run_isolated("props.C17_native", "scenarios")
-    return ({"kind": "mixins", "failures": f["failures"][:6]}, True) if f["failures"] else (None, False)
+    fails = [x for x in f["failures"] if not x.get("known")]
+    return ({"kind": "mixins", "failures": fails[:6]}, True) if fails else (None, False)
 
 
 def replay(path):
     import json
     from vf.genlab import run_isolated
     f = run_isolated("props.C17_native", "scenarios")
-    print("mixin scenarios ->", json.dumps(f["failures"][:4]) if f["failures"] else "conform")
-    return 1 if f["failures"] else 0
+    fails = [x for x in f["failures"] if not x.get("known")]
+    print("mixin scenarios ->", json.dumps(fails[:4]) if fails else "conform (known findings aside)")
+    return 1 if fails else 0
